@@ -70,6 +70,10 @@ func ValidateCreateVestingAccount(fromAddress string, toAddress string, amount s
 	if err != nil {
 		return nil, nil, errors.Wrap(ErrParsing, errors.Wrapf(err, "create vesting account - to-address parsing error: %s", toAddress).Error())
 	}
+	if fromAccAddress.Equals(toAccAddress) {
+		// the new account would have to fund itself: once it exists its coins are locked, and the bank panics on the transfer
+		return nil, nil, errors.Wrapf(ErrParam, "create vesting account - from-address and to-address are the same account (%s)", toAccAddress)
+	}
 
 	return fromAccAddress, toAccAddress, nil
 }
